@@ -101,6 +101,7 @@ func (p *Proxy) ServeHTTP(w http.ResponseWriter, r *http.Request) {
 
 	start := time.Now()
 	var scrapErr error
+	fw := &forwardWriter{ResponseWriter: w}
 	defer func() {
 		if scrapErr != nil {
 			p.log.Errorf(scrapErr.Error())
@@ -118,11 +119,17 @@ func (p *Proxy) ServeHTTP(w http.ResponseWriter, r *http.Request) {
 			tar.ScrapeTimes++
 			tar.SetScrapeErr(start, scrapErr)
 		}
+
+		if scrapErr != nil && fw.forwarded {
+			// part of the body has already been sent with status 200, so the status code set above is ignored.
+			// abort the response, otherwise prometheus gets a complete 200 response with truncated content
+			panic(http.ErrAbortHandler)
+		}
 	}()
 
 	scraper := scrape.NewScraper(jobInfo, realURL.String(), p.log)
 	if stopReason == "" {
-		scraper.WithRawWriter(w)
+		scraper.WithRawWriter(fw)
 	}
 
 	if err := scraper.RequestTo(); err != nil {
@@ -148,6 +155,21 @@ func (p *Proxy) ServeHTTP(w http.ResponseWriter, r *http.Request) {
 	if tar != nil {
 		tar.UpdateScrapeResult(rs)
 	}
+}
+
+// forwardWriter remembers whether any byte of the target's response has been sent to prometheus
+type forwardWriter struct {
+	http.ResponseWriter
+	forwarded bool
+}
+
+// Write implement io.Writer
+func (f *forwardWriter) Write(p []byte) (int, error) {
+	n, err := f.ResponseWriter.Write(p)
+	if n > 0 {
+		f.forwarded = true
+	}
+	return n, err
 }
 
 func translateURL(u url.URL) (job string, hash string, realURL url.URL) {
